@@ -7,6 +7,7 @@
 package c11world
 
 import (
+	"bytes"
 	"fmt"
 	"sort"
 	"time"
@@ -17,6 +18,7 @@ import (
 	"verifsim/worlds/chainworld"
 
 	"github.com/youchainhq/go-youchain/common"
+	"github.com/youchainhq/go-youchain/core/rawdb"
 	"github.com/youchainhq/go-youchain/core/types"
 	"github.com/youchainhq/go-youchain/logging"
 )
@@ -54,6 +56,17 @@ func init() {
 	})
 }
 
+var probeNames = []string{
+	"crash during reorg", "crash between state commit and head marker", "crash after tx lookups before head marker",
+	"crash between receipts and head marker", "crash between head-header marker and canonical hash",
+	"crash between canonical hash and head-block marker", "crash after head marker before tx lookups",
+	"crash before deleting lookups of dropped transactions", "crash inside state commit", "crash after block data before state commit",
+	"crash while storing a side chain without state", "crash after the last write of an offer",
+	"restart repaired head (loadLastState rewound)", "side chain became canonical", "side chain stored without becoming canonical",
+	"invalid block rejected", "future block queued", "future block imported by ticker", "further block became head",
+	"offer fully enumerated", "offer sampled", "invalid variant stored in the database (not canonical)",
+}
+
 // offer is one stimulus of the node under test: one InsertChain call, or one clock tick.
 type offer struct {
 	idx        int
@@ -85,6 +98,9 @@ func runC11(r *kit.Run) {
 			r.Fail("logging-crit", "the code under test called logging.Crit (process exit): %s %v", msg, ctx)
 		}
 		cx := initWorld(r, w, setup)
+		for _, p := range probeNames {
+			r.Stats["probe."+p] += 0 // a probe that never fires shows up as 0 in the evidence
+		}
 		defer cx.stopBuilders()
 		cx.budget, cx.maxEnum = 40, 24
 		if r.Tier == "thorough" {
@@ -102,14 +118,24 @@ func runC11(r *kit.Run) {
 		r.Count("size.blocks", int64(len(cx.nodes)-1))
 		r.Count("size.branches", int64(len(cx.branches)))
 
-		cx.disk = simdisk.New()
-		live, err := chainkit.NewImporter(cx.disk, w.Genesis, kit.Wait)
+		disk := simdisk.New()
+		live, err := chainkit.NewImporter(disk, w.Genesis, kit.Wait)
 		if err != nil {
 			panic("c11world: importer: " + err.Error())
 		}
-		cx.live = live
-		defer live.Stop(kit.Wait)
+		cx.live = &sut{im: live, disk: disk}
+		defer func() { cx.stopSut(cx.live) }()
 		cx.runSchedule()
+		if cx.leaked {
+			// a node died in a panic and can never be stopped cleanly (its InsertChain holds the
+			// chain lock and wait group for ever): end the run by the abort path, which lets the
+			// bubble be torn down with that goroutine left behind. Violations are already recorded.
+			cx.stopSut(cx.live)
+			cx.live = nil
+			cx.stopBuilders()
+			cx.branches = nil
+			r.Abort()
+		}
 	})
 }
 
@@ -147,6 +173,12 @@ func (cx *world) runSchedule() {
 		return cu.br.own[from:to]
 	}
 	for len(cx.offers) < maxOffers {
+		// blocks that reached the node as "further valid block" count as delivered
+		for _, cu := range s.cur {
+			for cu.next < len(cu.br.own) && s.delivered[cu.br.own[cu.next]] {
+				cu.next++
+			}
+		}
 		// current cursor must be ready; else move to the first ready one
 		if !ready(s.cur[s.at]) {
 			found := false
@@ -165,7 +197,7 @@ func (cx *world) runSchedule() {
 		if cx.futureFrom != 0 {
 			tickW = 3
 		}
-		act := c.Weighted("act", []int{10, 4, 3, 3, 3, 6, tickW, 1})
+		act := c.Weighted("act", []int{10, 4, 3, 3, 5, 6, tickW, 1})
 		switch act {
 		case 1: // interleave: continue on another branch
 			var others []int
@@ -216,7 +248,15 @@ func (cx *world) runSchedule() {
 			cx.offerBlocks(&offer{kind: "blocks", blocks: o.blocks, tags: o.tags, label: "duplicate", invalid: o.invalid})
 		case 4: // group that starts with already known blocks (the common ancestor in front)
 			back := 1 + c.Intn("overlap-back", 3)
-			ns := take(cu, cu.next, chunkSize())
+			n := chunkSize()
+			if cu.br.id != 0 && cu.next > 0 && c.Chance("growing-prefix", 1, 2) {
+				// all side blocks the node already stores (plus, possibly, the common ancestor)
+				// in front of ONE new side block: what a downloader delivers that re-requests
+				// from the fork point
+				back = cu.next + c.Intn("growing-plus-ancestor", 2)
+				n = 1
+			}
+			ns := take(cu, cu.next, n)
 			cu.next += len(ns)
 			var pre []*node
 			for a := ns[0].parent; a != nil && a.id != 0 && len(pre) < back; a = a.parent {
@@ -246,7 +286,7 @@ func (cx *world) runSchedule() {
 	for i := 0; i < 4 && len(cx.queued) > 0; i++ {
 		cx.offerTick()
 	}
-	head := cx.live.Chain.CurrentBlock()
+	head := cx.live.im.Chain.CurrentBlock()
 	r.Logf("end: head=%s(%d) offers=%d restarts=%d", cx.nameOf(head.Hash()), head.NumberU64(), len(cx.offers), cx.budget0-cx.budget)
 }
 
@@ -370,21 +410,29 @@ func (cx *world) offerBlocks(o *offer) {
 			r.Fault("offer.batch")
 		}
 	}
-	live := cx.live.Chain
+	live := cx.live.im.Chain
 	beforeH := live.CurrentBlock().Hash()
 	before := cx.byHash[beforeH]
-	cx.disk.Rebase()
+	cx.live.disk.Rebase()
 	var err error
 	if o.kind == "tick" {
 		time.Sleep(5 * time.Second)
 		kit.Wait()
 		r.SimTime += 5 * time.Second
 	} else {
-		err = cx.insert(live, o.blocks)
+		err = cx.insert(cx.live, o.blocks)
 	}
 	r.Steps++
-	W := cx.disk.LogLen()
-	after := cx.checkChain("live", fmt.Sprintf("after offer %d %s", o.idx, o.desc), live, cx.disk)
+	if cx.live.dead {
+		// the import killed the process: what is durable is what a restart finds
+		r.Logf("offer %d: %s -> PANIC; restarting the node on its durable image", o.idx, o.desc)
+		r.FP("offer", o.label, "panic")
+		cx.reviveLive()
+		cx.checkChain("live", fmt.Sprintf("after offer %d %s killed the process and the node was restarted", o.idx, o.desc), cx.live.im.Chain, cx.live.disk)
+		return
+	}
+	W := cx.live.disk.LogLen()
+	after := cx.checkChain("live", fmt.Sprintf("after offer %d %s", o.idx, o.desc), live, cx.live.disk)
 	// what happened
 	move := "none"
 	reorged := false
@@ -411,8 +459,25 @@ func (cx *world) offerBlocks(o *offer) {
 	if len(o.invalid) > 0 && err != nil {
 		r.Probe("invalid block rejected")
 	}
+	// diagnostic, outside the property's statement: an invalid variant that carries the hash of
+	// a valid block was written to the database (side-chain path: verifyAllSideChainBlocks
+	// checks neither the proposer signature nor the transaction root); it is not canonical, but
+	// HasBlock is now true for that hash and the valid block is never stored
+	for i, b := range o.blocks {
+		if o.tags[i] == "" || cx.byHash[b.Hash()] == nil {
+			continue
+		}
+		if hdr := rawdb.ReadHeader(cx.live.disk, b.Hash(), b.NumberU64()); hdr != nil {
+			body := rawdb.ReadBody(cx.live.disk, b.Hash(), b.NumberU64())
+			vn := cx.byHash[b.Hash()]
+			if !bytes.Equal(encHeader(hdr), vn.hdrRLP) || (body != nil && types.DeriveSha(types.Transactions(body.Transactions)) != hdr.TxHash) {
+				r.Probe("invalid variant stored in the database (not canonical)")
+				r.Logf("  note: %s is stored under the hash of valid %s", o.tags[i], vn.name)
+			}
+		}
+	}
 	cx.trackQueue(o, err)
-	r.Logf("offer %d: %s -> %s head=%s(%d) move=%s writes=%d stored=%d/%d queue=%d ok=%v", o.idx, o.desc, errClass(err), cx.nameOf(after.headH), live.CurrentBlock().NumberU64(), move, W, stored, len(o.blocks), len(cx.queued), after.ok)
+	r.Logf("offer %d: %s -> %s head=%s(%d) move=%s writes=%d stored=%d/%d queue=%d ok=%v", o.idx, o.desc, errClass(err), cx.nameOf(after.headH), live.CurrentBlock().NumberU64(), move, cx.logicalWrites(W), stored, len(o.blocks), len(cx.queued), after.ok)
 	if err != nil {
 		r.Logf("  err: %v", err)
 	}
@@ -442,7 +507,7 @@ func (cx *world) offerBlocks(o *offer) {
 // queued), so that a crash during a ticker-driven import can be followed by importing "the
 // interrupted blocks" again.
 func (cx *world) trackQueue(o *offer, err error) {
-	live := cx.live.Chain
+	live := cx.live.im.Chain
 	now := uint64(time.Now().Unix())
 	inQ := map[common.Hash]bool{}
 	for _, b := range cx.queued {
@@ -486,4 +551,26 @@ func (cx *world) trackQueue(o *offer, err error) {
 		keep = append(keep, b)
 	}
 	cx.queued = keep
+}
+
+// reviveLive replaces the live node, which died in a panic, by a restart on its durable image.
+func (cx *world) reviveLive() {
+	r := cx.r
+	r.Fault("crash.panic")
+	disk := cx.live.disk.Restart()
+	im, err := chainkit.NewImporter(disk, cx.w.Genesis, kit.Wait)
+	if err != nil {
+		r.Fail("crash-restart-failed", "restart after a panic during import failed: %v", err)
+	}
+	cx.live = &sut{im: im, disk: disk}
+	cx.queued = nil
+}
+
+// logicalWrites counts the offer's writes with every run of state batches as one (see segment).
+func (cx *world) logicalWrites(W int) int {
+	kinds := make([]string, W)
+	for i := range kinds {
+		kinds[i] = cx.entryKind(i)
+	}
+	return len(segments(kinds))
 }
